@@ -182,7 +182,12 @@ Fixpoint cpn_loop (fuel : nat) (size height : N) (sorted : list N) (result cache
                   | Some e => if negb (e =? ph) then gerr else Ok (mset result parent ph, cache, sibs')
                   | None => Ok (mset result parent ph, cache, sibs')
                   end))
-              | None => Ok (result, mset cache parent current, sibs)
+              | None =>
+                (* no sibling: a hash claimed for the parent index must be the child's hash (373680a) *)
+                match mget result parent with
+                | Some e => if negb (e =? current) then gerr else Ok (result, mset cache parent current, sibs)
+                | None => Ok (result, mset cache parent current, sibs)
+                end
               end) (fun '(result', cache', sibs') =>
         bind (idx_insert (skipn 1 sorted) parent) (fun sorted' =>   (* sortedIndexes[1:], insert *)
           match fuel with
@@ -202,14 +207,46 @@ Definition calculate_path_nodes (qh : list N) (size : N) (idxs sibs : list N) : 
     let s := idx_sort sorted in
     cpn_loop (measure s) size (gh size) s result [] sibs).
 
-(* VerifyProof: None = false before any comparison *)
+(* 0399db1: every non-zero proof index must name a node of a tree of [size] leaves *)
+Fixpoint idxs_valid (size height : N) (idxs : list N) : res bool :=
+  match idxs with
+  | [] => Ok true
+  | idx :: t =>
+    if idx =? 0 then idxs_valid size height t else
+    match new_node_location idx height with
+    | Ok (ni, li) => if N.shiftr (size - 1) li <? ni then Ok false else idxs_valid size height t
+    | Err _ => Ok false
+    | Panic => Panic
+    | OutOfFuel => OutOfFuel
+    end
+  end.
+
+(* VerifyProof *)
 Definition verify_proof (qh : list N) (size : N) (idxs sibs : list N) (root : N) : res bool :=
   if size =? 0 then Ok false else
+  match idxs_valid size (gh size) idxs with
+  | Ok false => Ok false
+  | Err _ => Ok false
+  | Panic => Panic
+  | OutOfFuel => OutOfFuel
+  | Ok true =>
   match calculate_path_nodes qh size idxs sibs with
   | Ok tree => match mget tree 2 with Some r => Ok (r =? root) | None => Ok false end
   | Err _ => Ok false
   | Panic => Panic
   | OutOfFuel => OutOfFuel
+  end
   end.
 
 End Cpn.
+
+(* exact integer versions of getHeight / getLayerStructure (equal to the floating-point Go code for size <= 2^53): the instance
+   on which the model is evaluated against the implementation *)
+Definition gh_int (size : N) : N := N.log2_up size + 1.
+Fixpoint layer_max (j : nat) (mx r : N) : N :=
+  match j with
+  | O => mx
+  | S j' => let mx' := if N.even r then mx / 2 else (mx + 1) / 2 in layer_max j' mx' (r + mx mod 2)
+  end.
+Definition gls_int (size : N) : list Z :=
+  map (fun layer => Z.of_N (layer_max layer size 0)) (seq 0 (N.to_nat (gh_int size))).
